@@ -182,6 +182,10 @@ enum Case {
     /// zero-sized Drop elements: take `front`/`back` from a consumer of n tokens (dropping what was taken),
     /// `clones` clones, push `pushed` tokens into a builder, map_! the rest: every token dropped exactly once
     Zst { n: usize, front: usize, back: usize, clones: usize, pushed: usize },
+    /// Clone::clone_from (a trait method a type may override) on a builder / consumer of capacity n: the destination
+    /// holds `dst` elements, the source `src`; contents afterwards equal the source's, every element of the old
+    /// destination is dropped exactly once
+    CloneFrom { n: usize, dst: usize, src: usize, consumer: bool },
 }
 
 macro_rules! ensure {
@@ -567,6 +571,46 @@ fn zst_run<const N: usize>(front: usize, back: usize, clones: usize, pushed: usi
     Ok(true)
 }
 
+fn clone_from_run<const N: usize>(dst_len: usize, src_len: usize, consumer: bool) -> Result<bool, String> {
+    if consumer {
+        // a consumer with `len` elements left (the others taken from the front and dropped)
+        let mk = |len: usize, base: u64| {
+            let mut c = ArrayConsumer::new(std::array::from_fn::<Tracked, N, _>(|i| Tracked::new(base + i as u64)));
+            for _ in 0..N.saturating_sub(len) {
+                if let Some(t) = c.next() {
+                    drop(ManuallyDrop::into_inner(t));
+                }
+            }
+            c
+        };
+        let (mut d, s) = (mk(dst_len.min(N), 1000), mk(src_len.min(N), 2000));
+        d.clone_from(&s);
+        let (got, want): (Vec<u64>, Vec<u64>) = (d.as_slice().iter().map(|t| t.check("clone_from destination")).collect(), s.as_slice().iter().map(|t| t.payload).collect());
+        ensure!(got == want, "VAL: ArrayConsumer::clone_from: destination holds {got:?}, source {want:?}");
+        drop((d, s));
+    } else {
+        let mk = |len: usize, base: u64| {
+            let mut b = ArrayBuilder::<Tracked, N>::new();
+            for i in 0..len.min(N) {
+                b.push(Tracked::new(base + i as u64));
+            }
+            b
+        };
+        let (mut d, s) = (mk(dst_len, 1000), mk(src_len, 2000));
+        d.clone_from(&s);
+        let (got, want): (Vec<u64>, Vec<u64>) = (d.as_slice().iter().map(|t| t.check("clone_from destination")).collect(), s.as_slice().iter().map(|t| t.payload).collect());
+        ensure!(got == want && d.len() == s.len(), "VAL: ArrayBuilder::clone_from: destination holds {got:?}, source {want:?}");
+        // the destination is still a working builder: fill it up and build
+        for i in d.len()..N {
+            d.push(Tracked::new(3000 + i as u64));
+        }
+        let arr = d.build();
+        ensure!(arr.iter().all(|t| t.check("built after clone_from") > 0), "VAL: build after clone_from");
+        drop((arr, s));
+    }
+    Ok(true)
+}
+
 fn run_case(c: &Case) -> (Result<bool, String>, Vec<String>) {
     ledger_reset();
     let r = match c {
@@ -576,6 +620,7 @@ fn run_case(c: &Case) -> (Result<bool, String>, Vec<String>) {
         Case::FromFnByVal { n, panic_at } => with_n!(*n, from_fn_by_val, *panic_at),
         Case::Values { n, kind } => with_n!(*n, values, *kind),
         Case::Zst { n, front, back, clones, pushed } => with_n!(*n, zst_run, *front, *back, *clones, *pushed),
+        Case::CloneFrom { n, dst, src, consumer } => with_n!(*n, clone_from_run, *dst, *src, *consumer),
         Case::ValuesBig { which } => match which {
             0 => values_big::<16>(),
             1 => values_big::<17>(),
@@ -636,6 +681,7 @@ fn eval(ctx: &mut Ctx, c11: bool, c: Case) {
             Case::Values { n, kind } => *n >= 2 && *kind >= 1 || *n == 0,
             Case::Zst { n, front, back, .. } => front + back < *n,
             Case::ValuesBig { .. } => true,
+            Case::CloneFrom { dst, src, .. } => dst != src,
         };
         if nt {
             let cls = match &c {
@@ -646,6 +692,7 @@ fn eval(ctx: &mut Ctx, c11: bool, c: Case) {
                 Case::Values { .. } => "values",
                 Case::Zst { .. } => "zst_drop",
                 Case::ValuesBig { .. } => "values_big",
+                Case::CloneFrom { .. } => "clone_from",
             };
             ctx.nontrivial(cls, &c, || json!(c));
         }
@@ -685,6 +732,16 @@ fn explore(ctx: &mut Ctx, c11: bool, miri: bool) {
             }
         }
     }
+    for n in 0..=maxn {
+        for dst in 0..=n {
+            for src in 0..=n {
+                for consumer in [false, true] {
+                    eval(ctx, c11, Case::CloneFrom { n, dst, src, consumer });
+                }
+            }
+        }
+    }
+    ctx.exhaustive_part("Clone::clone_from on ArrayBuilder and ArrayConsumer: N in 0..=6 x destination fill level x source fill level");
     ctx.exhaustive_part("zero-sized Drop tokens: N in 0..=6 x front/back takes 0..=3 x clones x builder fill levels (+ destructure! of token arrays/tuples): destructor calls counted");
     ctx.exhaustive_part("N in 0..=6 x {u32,String,Tracked} value checks of map!/map_!/from_fn!/from_fn_! (all closure forms); map_!/from_fn_! with the closure panicking at every element");
     // all op sequences up to a depth
